@@ -21,7 +21,11 @@ ES_VARS = dict(
     ),
     externals={"'\",\"'.join": dict(uf="strjoin", returns="str", pure=True)},
     locals={"variables": VARS},
+    returns=VARS,
+    fresh_result=True,
+    allocates=True,
     ensures=[
+        "ref(result) >= NREF0()",  # a new map on every call (what callers rely on when they update it)
         # Rally's own node variables win over whatever the composed car defines ...
         "has(result, 'cluster_name') and result['cluster_name'] == self.cluster_name and has(result, 'node_name') and result['node_name'] == self.node_name",
         "has(result, 'node_ip') and result['node_ip'] == self.node_ip and has(result, 'network_host') and result['network_host'] == self.node_ip",
@@ -66,32 +70,96 @@ DOCKER_INIT = dict(
     cover=["return"],
 )
 
+# event k is the check of path p: evk(k) == 'exists'; if the path exists it is followed by exactly one removal attempt of the same path
+EXAMINED_THEN_REMOVED = (
+    "forall(lambda q: implies(0 <= q and q < nev(), ite(evk(q) == 'exists', "
+    "implies(eva(q, 0, 'bool'), q + 1 < nev() and ((evk(q + 1) == 'rmtree' and eva(q + 1, 1, 'str') == eva(q, 1, 'str')) or (evk(q + 1) == 'rmtree!' and eva(q + 1, 2, 'str') == eva(q, 1, 'str')))), "
+    "(evk(q) == 'rmtree' or evk(q) == 'rmtree!') and q >= 1 and evk(q - 1) == 'exists' and eva(q - 1, 0, 'bool'))))"
+)
 CLEANUP = dict(
     target="esrally/mechanic/provisioner.py::cleanup",
     prop="C13",
     params={"preserve": "bool", "install_dir": "str", "data_paths": "list[str]"},
+    ghost_state={"$examined": "int", "$last": "str"},
+    requires=["$examined == 0"],
     externals={
-        "os.path.exists": dict(returns="bool"),
+        # the k-th existence check: ghost counter and the path it looked at
+        "os.path.exists": dict(event="exists", returns="bool", ghost_update=[("$examined", "$examined + 1"), ("$last", "a0")]),
         "shutil.rmtree": dict(event="rmtree", outcomes=[dict(returns="none"), dict(raises="OSError")]),
         "console.info": dict(drop=True),
     },
     loops={
         0: dict(
             inv=[
-                "nev() <= _i",
-                "forall(lambda q: implies(0 <= q and q < nev(), evk(q) == 'rmtree' or evk(q) == 'rmtree!'))",
-                # every removal so far targets one of the data paths already visited (at most one attempt per visited path)
-                "forall(lambda q: implies(0 <= q and q < nev(), exists(lambda j: 0 <= j and j < _i and (eva(q, 1, 'str') == data_paths[j] or eva(q, 2, 'str') == data_paths[j]))))",
+                # every data path visited so far was examined exactly once, in order (one check per iteration, of that iteration's path)
+                "$examined == _i and implies(_i > 0, $last == data_paths[_i - 1])",
+                "nev() <= 2 * _i",
+                EXAMINED_THEN_REMOVED,
+                "forall(lambda q: implies(0 <= q and q < nev() and evk(q) == 'exists', exists(lambda j: 0 <= j and j < _i and eva(q, 1, 'str') == data_paths[j])))",
             ]
         )
     },
     ensures=[
-        # preserve-install: nothing at all is removed
+        # preserve-install: nothing at all is touched
         "implies(preserve, nev() == 0)",
-        # otherwise only the installation directory and data paths are ever removed, each at most once per occurrence
-        "implies(not preserve, nev() <= len(data_paths) + 1)",
-        "forall(lambda q: implies(0 <= q and q < nev(), eva(q, 1, 'str') == install_dir or eva(q, 2, 'str') == install_dir or "
-        "exists(lambda j: 0 <= j and j < len(data_paths) and (eva(q, 1, 'str') == data_paths[j] or eva(q, 2, 'str') == data_paths[j]))))",
+        # otherwise EVERY data path and then the installation directory is examined (exactly one check each), and whatever exists is removed
+        "implies(not preserve, $examined == len(data_paths) + 1 and $last == install_dir)",
+        "implies(not preserve, nev() <= 2 * len(data_paths) + 2)",
+        EXAMINED_THEN_REMOVED,
+        # ... and nothing else is: only the installation directory and the data paths are ever examined / removed
+        "forall(lambda q: implies(0 <= q and q < nev() and evk(q) == 'exists', eva(q, 1, 'str') == install_dir or exists(lambda j: 0 <= j and j < len(data_paths) and eva(q, 1, 'str') == data_paths[j])))",
+    ],
+    cover=["return"],
+)
+
+# ------------------------------------------------------------------------------------------------ BareProvisioner._provisioner_variables
+NO_PLUGIN = "forall(lambda j: implies(0 <= j and j < len(self.plugin_installers), not has(self.plugin_installers[j].plugin.variables, k)))"
+INST = "self.es_installer"
+PROV_VARS = dict(
+    target="esrally/mechanic/provisioner.py::BareProvisioner._provisioner_variables",
+    prop="C13",
+    self_type="obj[BareProvisioner]",
+    fields=dict(
+        ES_VARS["fields"],
+        **{
+            "BareProvisioner.es_installer": "obj[ElasticsearchInstaller]", "BareProvisioner.plugin_installers": "list[obj[PluginInstaller]]", "BareProvisioner.logger": "any",
+            "PluginInstaller.plugin": "obj[PluginDescriptor]", "PluginDescriptor.variables": VARS, "PluginDescriptor.moved_to_module": "bool", "PluginDescriptor.name": "str",
+        },
+    ),
+    externals=ES_VARS["externals"],
+    locals={"plugin_variables": VARS, "mandatory_plugins": "list[str]", "cluster_settings": "dict[str,list[str]]", "provisioner_vars": VARS},
+    loops={
+        0: dict(
+            modifies_objs=["plugin_variables", "mandatory_plugins"],
+            inv=[
+                "ref(plugin_variables) >= NREF0() and ref(mandatory_plugins) >= NREF0()",
+                # a key no plugin (so far) defines is not among the plugin variables
+                "forall_str(lambda k: implies(forall(lambda j: implies(0 <= j and j < _i, not has(self.plugin_installers[j].plugin.variables, k))), not has(plugin_variables, k)))",
+            ],
+        )
+    },
+    returns=VARS,
+    ensures=[
+        # what templates and install hooks see: Rally's own node variables -- unless a PLUGIN defines the key, nothing (in particular not the car, whose
+        # variables went in first) overrides them
+        "has(result, 'cluster_settings')",
+    ] + [
+        f"implies({NO_PLUGIN.replace(', k)', ', ' + repr(key) + ')')}, has(result, '{key}') and {eqn})"
+        for key, eqn in [
+            ("cluster_name", f"result['cluster_name'] == {INST}.cluster_name"),
+            ("node_name", f"result['node_name'] == {INST}.node_name"),
+            ("node_ip", f"result['node_ip'] == {INST}.node_ip"),
+            ("network_host", f"result['network_host'] == {INST}.node_ip"),
+            ("http_port", f"result['http_port'] == str({INST}.http_port)"),
+            ("transport_port", f"result['transport_port'] == str({INST}.http_port + 100)"),
+            ("log_path", f"result['log_path'] == {INST}.node_log_dir"),
+            ("heap_dump_path", f"result['heap_dump_path'] == {INST}.heap_dump_dir"),
+            ("install_root_path", f"result['install_root_path'] == {INST}.es_home_path"),
+            ("data_paths", f"ref(result['data_paths']) == ref({INST}.data_paths)"),
+        ]
+    ] + [
+        # every other key that no plugin defines is the car's (cluster_settings is Rally's)
+        f"forall_str(lambda k: implies(not ({IS_RALLY}) and k != 'cluster_settings' and {NO_PLUGIN}, has(result, k) == has({INST}.car.variables, k) and implies(has(result, k), result[k] == {INST}.car.variables[k])))",
     ],
     cover=["return"],
 )
@@ -138,7 +206,7 @@ CL_LOAD = dict(
     cover=["return"],
 )
 
-CONTRACTS = [ES_VARS, DOCKER_INIT, CLEANUP, CL_LOAD]
+CONTRACTS = [ES_VARS, DOCKER_INIT, CLEANUP, CL_LOAD, PROV_VARS]
 ASSUMPTIONS = ["str(int), os.path.join and str.join are uninterpreted functions; values of mixed types in variable maps are boxed into an untyped universe (injective embeddings)", "os.path.exists returns an arbitrary bool; shutil.rmtree may raise OSError"]
 NOT_DECIDED = ["team.load_car / CarLoader.load_car precedence loops (configparser), _apply_config template mirroring (os.walk, Jinja) -- not yet under contract in this revision"]
 TRUSTED = []
